@@ -19,7 +19,7 @@ namespace Ssv.Qbft
 /-- the checks the model's `validateDecided` / `isDecidedMsg` / `UponDecided` transcribe, in source order -/
 theorem C02_tie_decided_path :
     Gen.calls_qbft_ctrl_ProcessMsg = ["BaseMsgValidation", "IsDecidedMsg", "UponDecided", "isFutureMessage", "UponExistingInstanceMsg"] ∧
-    Gen.calls_qbft_IsDecidedMsg = ["HasQuorum"] ∧
+    Gen.calls_qbft_IsDecidedMsg = ["HasQuorum", "share.HasQuorum"] ∧
     Gen.calls_qbft_ValidateDecided = ["IsDecidedMsg", "Validate", "BaseCommitValidation", "Validate", "HashDataRoot"] ∧
     Gen.calls_qbft_node_BaseCommitValidation = ["Validate", "VerifyByOperators"] ∧
     Gen.calls_qbft_UponDecided =
@@ -33,7 +33,7 @@ theorem C02_tie_decided_path :
 theorem C02_tie_local_path :
     Gen.calls_qbft_node_validateCommit = ["BaseCommitValidation"] ∧
     Gen.calls_qbft_node_UponCommit = ["AddFirstMsgForSignerAndRound", "commitQuorumForRoundRoot", "aggregateCommitMsgs"] ∧
-    Gen.calls_qbft_node_commitQuorumForRoundRoot = ["LongestUniqueSignersForRoundAndRoot", "HasQuorum"] ∧
+    Gen.calls_qbft_node_commitQuorumForRoundRoot = ["LongestUniqueSignersForRoundAndRoot", "HasQuorum", "Share.HasQuorum"] ∧
     Gen.calls_qbft_node_aggregateCommitMsgs = ["DeepCopy", "Aggregate"] ∧
     Gen.calls_qbft_node_isValidProposal =
       ["GetSigners", "VerifyByOperators", "MatchedSigners", "proposer", "Validate", "HashDataRoot", "isProposalJustification"] ∧
